@@ -137,6 +137,8 @@ package pogreb
 //@   ensures inv: err == nil ==> fileInv(f)
 //@   ensures kept: err == nil ==> forall q int :: 0 <= q && q < off ==> fData[fidOf[f.File]][q] == old(fData[fidOf[f.File]])[q]
 //@   ensures zero: err == nil ==> forall q int :: off <= q && q < f.size ==> fData[fidOf[f.File]][q] == 0
+// growing an index file by zero bytes adds only empty slots
+//@   ensures [C01] inlog: err == nil && theDB() != nil && old(f.size) & 15 == 0 && slotsInLog(old(fData[fidOf[f.File]]), old(f.size), theDB().datalog) ==> slotsInLog(fData[fidOf[f.File]], f.size, theDB().datalog)
 //@   ensures err: err != nil ==> isIOErr(err)
 //@   ensures handle: f.File == old(f.File)
 //@   modifies f.size, fData[fidOf[f.File]], fLen[fidOf[f.File]], fDur[fidOf[f.File]]
@@ -164,7 +166,7 @@ package pogreb
 // the iterator reads the file of its segment through a reader positioned at it.offset
 //@ spec func segItInv(it *segmentIterator) bool = it != nil && it.f != nil && it.f.file != nil && it.f.file.File != nil && it.r != nil && hOpen[it.r] && len(it.buf) == 6 && arr(it.buf) != 0 && fidOf[it.r] == fidOf[it.f.file.File] && hPos[it.r] == int64(it.offset) && fLen[fidOf[it.r]] <= 0xffffffff && fLen[fidOf[it.r]] >= 0 && it.f.file.size == fLen[fidOf[it.r]] && int64(it.offset) <= fLen[fidOf[it.r]]
 
-//@ func (it *segmentIterator) next() (rec record, err error) [C04,C05,C08,C18,C19,C16]
+//@ func (it *segmentIterator) next() (rec record, err error) [C03,C04,C05,C08,C18,C19,C16]
 //@   requires inv: segItInv(it)
 //@   ensures done: !isIOErr(err) && fLen[fidOf[it.r]] <= int64(old(it.offset)) ==> err == ErrIterationDone && it.offset == old(it.offset)
 //@   ensures shorthdr: !isIOErr(err) && int64(old(it.offset)) < fLen[fidOf[it.r]] && fLen[fidOf[it.r]] - int64(old(it.offset)) < 6 ==> err == io.ErrUnexpectedEOF
